@@ -71,7 +71,7 @@ func scenario(k int) {
 	}
 	label := fmt.Sprintf("%s http=%s udp=%s startComplete=%v seeder=%v", id, scripts[0], scripts[1], startComplete, withSeeder)
 	run.CaseStart(label)
-	defer run.CaseEnd(label)
+	defer run.CaseEndDeferred(label)
 	dir := filepath.Join(run.Work, fmt.Sprintf("s%d", k))
 	os.MkdirAll(dir, 0o755)
 	defer os.RemoveAll(dir)
